@@ -238,6 +238,63 @@ REWRITES = [
     ('status-codes-renumbered', HDR,
      '#define GSTUFF_FORCE_RESTART 2\n#define GSTUFF_GARBAGE 3', '#define GSTUFF_FORCE_RESTART 12\n#define GSTUFF_GARBAGE 13',
      '#define GSTUFF_CRC_ERROR -1\n#define GSTUFF_OVERFLOW -2', '#define GSTUFF_CRC_ERROR -11\n#define GSTUFF_OVERFLOW -12'),
+
+    ('recv-stop-handler-in-static-helper', CPP,
+     '''int gstuff_autorecv::newchar(char c)
+{''',
+     '''static int gstuff_close_frame(struct sline *l, uint8_t residue)
+{
+    if (residue)
+        return GSTUFF_CRC_ERROR;
+    sline_backspace(l, 1);
+    return GSTUFF_NEWPACKAGE;
+}
+
+int gstuff_autorecv::newchar(char c)
+{''',
+     '''__stop_handler__:
+    if (crc != 0)
+    {
+        //Принят символ окончания пакета, но crc не пройден.
+        sts = GSTUFF_CRC_ERROR;
+        goto __finish__;
+    }
+
+    else
+    {
+        //Корректный приём пакета. Удаляем crc символ
+        sline_backspace(&line, 1);
+        sts = GSTUFF_NEWPACKAGE;
+        goto __finish__;
+    }
+''',
+     '''__stop_handler__:
+    sts = gstuff_close_frame(&line, crc);
+    goto __finish__;
+'''),
+    ('recv-reset-clears-the-buffer', CPP,
+     '''    this->crc = 0xff;
+    sline_reset(&this->line);''',
+     '''    this->crc = 0xff;
+    for (unsigned int k = 0; k < this->line.cap; ++k)
+        this->line.buf[k] = 0;
+    sline_reset(&this->line);'''),
+    ('legacy-recv-crc-test-demorgan', DEC1,
+     '''            if (autom->crc != 0)
+            {
+                //Принят символ окончания пакета, но crc не пройден.
+                sts = GSTUFF_CRC_ERROR_V1;
+                goto __finish__;
+            }
+
+            else
+            {
+                //Корректный приём пакета.
+                sts = GSTUFF_NEWPACKAGE_V1;
+                goto __finish__;
+            }''',
+     '''            sts = !(autom->crc == 0) ? GSTUFF_CRC_ERROR_V1 : GSTUFF_NEWPACKAGE_V1;
+            goto __finish__;'''),
 ]
 
 
